@@ -10,7 +10,7 @@ cp spec/*.tla "$tmp"/
 cd "$tmp"
 for f in *.tla; do
   case "$f" in MC_*|Trace_*) ;; esac
-  java -cp /opt/veriftools/tla/tla2tools.jar:/opt/veriftools/tla/CommunityModules-deps.jar tla2sany.SANY "$f" > sany.out 2>&1 || { cat sany.out; echo "SANY failed on $f"; rm -rf "$tmp"; exit 1; }
+  java -Djava.io.tmpdir="$tmp" -cp /opt/veriftools/tla/tla2tools.jar:/opt/veriftools/tla/CommunityModules-deps.jar tla2sany.SANY "$f" > sany.out 2>&1 || { cat sany.out; echo "SANY failed on $f"; rm -rf "$tmp"; exit 1; }
   if grep -q -E "Semantic errors|Parse Error|Fatal error" sany.out; then cat sany.out; echo "SANY failed on $f"; rm -rf "$tmp"; exit 1; fi
 done
 cd /; rm -rf "$tmp"
